@@ -31,6 +31,7 @@ struct Block {
     int step;
     Side side;
     bool live;
+    size_t cap = 0;   // custom arena: usable bytes of the slot (reuse mode hands the slot out again)
 };
 
 static std::map<uintptr_t, Block> g_ledger;   // every block handed out in this run (freed ones stay, marked dead)
@@ -65,8 +66,12 @@ void init() {
 bool in_arena(const void *p) {
     return g_arena && (const unsigned char *)p >= g_arena && (const unsigned char *)p < g_arena + ARENA_SIZE;
 }
-void reset_run(unsigned char fill, ReallocMode m) {
+static bool g_reuse = false;                                  // custom arena hands a released slot to the next request of the same size class (LIFO)
+static std::map<size_t, std::vector<unsigned char *>> g_free_slots;
+void reset_run(unsigned char fill, ReallocMode m, bool reuse) {
     init();
+    g_reuse = reuse;
+    g_free_slots.clear();
     // release default-side blocks that a previous (failed/abandoned) run left behind
     for (auto &kv : g_ledger)
         if (kv.second.live && kv.second.side == DEF) free((void *)kv.first);
@@ -154,13 +159,23 @@ void *cust_malloc(size_t n) {
     if (g_epoch != EP_BOTH) violate("routing: the custom malloc was called although the installed configuration does not route allocation to it");
     if (should_fail()) return nullptr;
     size_t need = ((n ? n : 1) + 15) & ~(size_t)15;
-    if (g_arena_used + 2 * REDZONE + need > ARENA_SIZE) { violate("sim: arena exhausted"); return nullptr; }
-    unsigned char *p = g_arena + g_arena_used + REDZONE;  // redzone before; the next block's redzone (or arena poison) follows
-    g_arena_used += REDZONE + need;
+    unsigned char *p = nullptr;
+    if (g_reuse) {
+        // an allocator that hands the block just released to the next request of the same size (tcache, pools): a stale
+        // pointer then designates a live block of somebody else
+        auto fl = g_free_slots.find(need);
+        if (fl != g_free_slots.end() && !fl->second.empty()) { p = fl->second.back(); fl->second.pop_back(); g_cnt.reused++; }
+    }
+    if (!p) {
+        if (g_arena_used + 2 * REDZONE + need > ARENA_SIZE) { violate("sim: arena exhausted"); return nullptr; }
+        p = g_arena + g_arena_used + REDZONE;  // redzone before; the next block's redzone (or arena poison) follows
+        g_arena_used += REDZONE + need;
+    }
     // a zero-size request yields one accessible byte, like malloc(0) -> malloc(1) on the default side (DESIGN 11)
     UNPOISON(p, n ? n : 1);
     memset(p, g_fill, n ? n : 1);
     record(p, n ? n : 1, CUST);
+    g_ledger[(uintptr_t)p].cap = need;
     return p;
 }
 void cust_free(void *p) {
@@ -180,7 +195,8 @@ void cust_free(void *p) {
 #ifndef SIM_ASAN
     memset(p, 0xDD, it->second.size);
 #endif
-    POISON(p, it->second.size);  // quarantined for the whole run: never reused
+    POISON(p, it->second.size);  // quarantined for the whole run: never reused (unless the run simulates a reusing allocator)
+    if (g_reuse && it->second.cap) g_free_slots[it->second.cap].push_back((unsigned char *)p);
 }
 void *cust_malloc_m(size_t n) {
     if (g_yield) g_yield(105);
